@@ -48,6 +48,7 @@ func (c RawConfiguration) Multicast(ctx context.Context, d QuorumCallData, opts 
 		select {
 		case <-replyChan:
 		case <-ctx.Done():
+			vEmit("CallEnd", 0, md.MessageID, "out", "ctx")
 			return
 		}
 		vEmit("CallConfirm", 0, md.MessageID, "left", sentMsgs-1)
